@@ -356,6 +356,9 @@ func runC07(c *core.Ctx) {
 				w.mustReject(base.enc[:l], fmt.Sprintf("truncated#%d", l), "truncations_rejected")
 			}
 			w.mustReject(append(clone(base.enc), 0), "trailing-byte", "")
+			w.mustReject(append(clone(base.enc), make([]byte, 65536)...), "trailing-65536-bytes", "")
+			w.mustReject(append(clone(base.enc), make([]byte, 131072)...), "trailing-131072-bytes", "")
+			w.mustReject(append(clone(base.enc), make([]byte, 65535)...), "trailing-65535-bytes", "")
 			w.mustReject(append(clone(base.enc), base.enc...), "doubled", "")
 			w.mustReject(base.enc[:len(base.enc)-96], "signature-removed", "truncations_rejected")
 			c.Distinctf("truncations:%d", hi)
